@@ -464,6 +464,21 @@ class Channel(typing.ContextManager):
             self._log_prompt = show_prompt
             yield self
         finally:
+            # For a regex prompt, more than the actual prompt may have been
+            # held back.  Only the prompt itself must be skipped, anything in
+            # front of it is output.
+            if (
+                not self._log_prompt
+                and isinstance(self.prompt, BoundedPattern)
+                and len(self._streambuf) > 0
+            ):
+                match = self.prompt.pattern.search(self._streambuf)
+                if match is not None:
+                    fragment = self._streambuf[: match.span()[0]]
+                    for s in self._streams:
+                        s.write(fragment.decode("utf-8", errors="replace"))
+                self._streambuf = bytearray()
+
             self._streams.remove(stream)
 
             # If we don't want to log the prompt, advance the buffer to skip the
